@@ -12,7 +12,7 @@
    A step is a partial function of (state, label); all nondeterminism (the schedule) is the choice of the
    next label.  [bad] is set when an action is handed to a handler although it already has one: the model
    can represent a double start, and [exec_once] proves it unreachable. *)
-From Coq Require Import List Arith Bool Lia PeanoNat NArith.
+From Coq Require Import List Arith Bool Lia PeanoNat NArith Strings.Byte.
 Import ListNotations.
 Require Import Verif.Model.C06_Map.
 
@@ -407,8 +407,8 @@ Definition gdag_of_tables (top : list row) (inner : list (nat * list row)) : gda
   mkgdag (dag_of_table top) (fun p => dag_of_table (lookup_table p inner)).
 
 (* Compact encodings used by the generated cases files (binary numerals parse quickly):
-   a graph is a list of rows (deps, trig, pend, failed) over N; a trace is a flat list of N, four per event:
-   level+1 (0: package level), kind, a, b.  Kinds: 0 seed, 1 deq, 2 spawn, 3 inline, 4 start, 5 end (b = 1: failed),
+   a graph is a list of rows (deps, trig, pend, failed) over N; a trace is a list of N, one per event, packing
+   level+1 (0: package level), kind, a, b (see decode_event).  Kinds: 0 seed, 1 deq, 2 spawn, 3 inline, 4 start, 5 end (b = 1: failed),
    6 rel, 7 dec, 8 enq, 9 close, 10 exit, 11 init (runAnalyzers of package a builds its graph). *)
 Definition nrow := (list N * list N * N * bool)%type.
 Definition row_of_nrow (r : nrow) : row :=
@@ -420,20 +420,37 @@ Definition decode_label (k : N) (a b : nat) : option (label unit) :=
   | 7%N => Some (EDec a b) | 8%N => Some (EEnq a b) | 9%N => Some EClose | 10%N => Some EExit
   | _ => None
   end.
-Fixpoint decode_trace (l : list N) : option (list (glabel unit unit)) :=
-  match l with
-  | [] => Some []
-  | lv :: k :: a :: b :: r =>
-      match decode_trace r with
-      | Some rest =>
-          if N.eqb k 11 then Some (GInit (N.to_nat a) :: rest) else
-          match decode_label k (N.to_nat a) (N.to_nat b) with
-          | Some e => Some ((match lv with 0%N => GTop e | _ => GIn (N.to_nat lv - 1) e end) :: rest)
-          | None => None
-          end
-      | None => None
+(* Events as text (string literals are by far the cheapest literals for coqc to read): ten characters per
+   event, each character a base-64 digit `chr (48 + d)`: level+1 (3 digits), kind (1), a (3), b (3). *)
+Inductive bstr := BNil | BCons (b : Byte.byte) (r : bstr).
+Fixpoint bstr_of (l : list Byte.byte) : bstr := match l with [] => BNil | b :: r => BCons b (bstr_of r) end.
+Fixpoint of_bstr (s : bstr) : list Byte.byte := match s with BNil => [] | BCons b r => b :: of_bstr r end.
+Declare Scope bstr_scope.
+Delimit Scope bstr_scope with bstr.
+String Notation bstr bstr_of of_bstr : bstr_scope.
+
+Definition dig (b : Byte.byte) : N := Byte.to_N b - 48.
+Definition dig3 (x y z : Byte.byte) : N := (dig x * 64 + dig y) * 64 + dig z.
+Definition decode_event (lv k a b : N) : option (glabel unit unit) :=
+  if N.eqb k 11 then Some (GInit (N.to_nat a)) else
+  match decode_label k (N.to_nat a) (N.to_nat b) with
+  | Some e => Some (match lv with 0%N => GTop e | _ => GIn (N.to_nat lv - 1) e end)
+  | None => None
+  end.
+Fixpoint decode_bstr (s : bstr) : option (list (glabel unit unit)) :=
+  match s with
+  | BNil => Some []
+  | BCons l2 (BCons l1 (BCons l0 (BCons k (BCons a2 (BCons a1 (BCons a0 (BCons b2 (BCons b1 (BCons b0 r))))))))) =>
+      match decode_event (dig3 l2 l1 l0) (dig k) (dig3 a2 a1 a0) (dig3 b2 b1 b0), decode_bstr r with
+      | Some e, Some rest => Some (e :: rest)
+      | _, _ => None
       end
   | _ => None
+  end.
+Fixpoint decode_trace (l : list bstr) : option (list (glabel unit unit)) :=
+  match l with
+  | [] => Some []
+  | c :: r => match decode_bstr c, decode_trace r with Some x, Some y => Some (x ++ y) | _, _ => None end
   end.
 Definition gdag_of_ntables (top : list nrow) (inner : list (N * list nrow)) : gdag :=
   gdag_of_tables (map row_of_nrow top) (map (fun x => (N.to_nat (fst x), map row_of_nrow (snd x))) inner).
